@@ -53,12 +53,14 @@ def make_form(rng, i):
     if rng.random() < 0.3:
         for j in range(rng.randint(1, 3)):
             t = rng.choice(["text", "integer", "decimal", "date", f"select_one {next(iter(f.choices))}"])
-            shown = rng.choice(["label", "hint", "both", "none"])
+            shown = rng.choice(["label", "hint", "both", "none", "image", "audio"])
             cells = {"calculation": rng.choice(["1 + 1", "today()", "'x'"])}
             if shown in ("label", "both"):
                 cells["label"] = f"calc shown {j}"
             if shown in ("hint", "both"):
                 cells["hint"] = f"calc hint {j}"
+            if shown in ("image", "audio"):
+                cells[shown] = f"calc{j}." + ("png" if shown == "image" else "mp3")  # media only: still something the user is shown
             place(Row("q", t, f"cv{i}_{j}", cells))
     k = rng.randrange(8)
     if k == 0:  # every type at least sometimes
